@@ -17,14 +17,30 @@ def convert(svg_text: str, **opts) -> str:
 def compare(src: str, out: str, r: Result, what=("stack",), rgba_tol=1.5 / 255, strokes=True, gradients=True, min_trusted=20, label="", convert_fn=None, attribute=True):
     """Adds violations to r; returns dict with statistics or None when the oracle cannot judge.
 
-    Engine attribution: when a mismatch is found and the polygonal twin of the source (all curves
+    Engine attribution (three stages, only entered when a render mismatch was found).  Stage 0, isolation: if
+    every rendered leaf converts correctly in a document of its own (fresh interpreter per sub-document), the
+    mismatch is caused by the other shapes' presence, never by the engine, and stays a violation.  Stage 1: when a mismatch is found and the polygonal twin of the source (all curves
     flattened to lines, everything else kept) converts without any mismatch, the mismatch is attributed to
     skia-pathops' handling of curved input (known finding ENGINE): r.excluded is set and no violation
     is recorded.  Wrapper-logic errors (transforms, rules, clips, cascade) show on the twin as well.
     A second stage attributes a mismatch that vanishes in at least 2 of 3
     jitter twins (all absolute coordinates moved by <= 0.2 % of the viewBox) to the engine as well."""
     stats = _compare(src, out, r, what, rgba_tol, strokes, gradients, min_trusted, label)
+    # isolation: the engine is only ever handed one shape (and its clips) at a time, so a mismatch that is gone as soon as
+    # each rendered leaf is converted in a document of its own is caused by the other shapes' presence (state carried
+    # from shape to shape, memoisation with an incomplete key, id bookkeeping) - never by the engine.  Such a
+    # mismatch is kept, whatever the jitter twins below would say (jitter breaks textual coincidences between shapes).
+    interference = False
     if attribute and r.violations and all(c in ("stack-differs", "colour-differs") for c, _ in r.violations):
+        try:
+            # with the default conversion every sub-document is converted in a fresh interpreter, so that state kept at
+            # module level (a cache filled while the full document was converted) cannot make a leaf fail "on its own"
+            interference = _only_with_company(src, convert_fn or _fresh_convert, what, rgba_tol, strokes, gradients, min_trusted)
+        except Exception:
+            interference = False
+        if interference:
+            r.violations = [(c, m + "  [each shape converts correctly in a document of its own: the mismatch needs the other shapes' presence, so it is not an engine failure]") for c, m in r.violations]
+    if attribute and not interference and r.violations and all(c in ("stack-differs", "colour-differs") for c, _ in r.violations):
         try:
             from vlib.refsvg import polygonal
 
@@ -39,18 +55,6 @@ def compare(src: str, out: str, r: Result, what=("stack",), rgba_tol=1.5 / 255, 
                     r.info = None
         except Exception:
             pass
-    # isolation: the engine is only ever handed one shape (and its clips) at a time, so a mismatch that is gone as soon as
-    # each rendered leaf is converted in a document of its own is caused by the other shapes' presence (state carried
-    # from shape to shape, memoisation with an incomplete key, id bookkeeping) - never by the engine.  Such a
-    # mismatch is kept, whatever the jitter twins below would say (jitter breaks textual coincidences between shapes).
-    interference = False
-    if attribute and r.violations and all(c in ("stack-differs", "colour-differs") for c, _ in r.violations):
-        try:
-            interference = _only_with_company(src, convert_fn or convert, what, rgba_tol, strokes, gradients, min_trusted)
-        except Exception:
-            interference = False
-        if interference:
-            r.violations = [(c, m + "  [each shape converts correctly in a document of its own: the mismatch needs the other shapes' presence, so it is not an engine failure]") for c, m in r.violations]
     # second stage: instability under tiny coordinate jitter (see vlib/refsvg/jitter.py).  Engine failures also
     # occur on purely polygonal input (overlapping dash outlines, degenerate cubics flattened to repeated points);
     # they depend on the exact coordinates, whereas errors of picosvg's own logic (transform order, rules, clip
@@ -74,6 +78,19 @@ def compare(src: str, out: str, r: Result, what=("stack",), rgba_tol=1.5 / 255, 
         except Exception:
             pass
     return stats
+
+
+def _fresh_convert(svg_text: str) -> str:
+    import subprocess
+    import sys
+
+    p = subprocess.run(
+        [sys.executable, "-c", "import sys; from picosvg.svg import SVG; sys.stdout.write(SVG.fromstring(sys.stdin.read()).topicosvg().tostring())"],
+        input=svg_text, capture_output=True, text=True, timeout=300,
+    )
+    if p.returncode != 0:
+        raise RuntimeError(p.stderr[-200:])
+    return p.stdout
 
 
 _LEAF_TAGS = ("rect", "circle", "ellipse", "line", "polyline", "polygon", "path", "use")
